@@ -54,6 +54,20 @@ def cases(draw):
             gen.ODD_ARGS[0] = False
         if q is None:
             break
+        if k == 2 and draw(st.integers(0, 2)) == 0:
+            # a cells (with whatever it holds by now) is copied into another space under the same name: the copy
+            # evaluates its formula with the names of the space it is in now
+            srcs = [(sp.path, n) for sp in G.all_spaces() for n in sp.cells if gen.rank_of(n) >= 0]
+            if srcs:
+                src, name = draw(st.sampled_from(sorted(srcs)))
+                tgts = [t for t in G.all_spaces() if G.find_cells(t, name) is None and name not in t.children
+                        and G.find_ref(t, name) is None and t.formula is None]
+                if tgts:
+                    t = draw(st.sampled_from(tgts))
+                    op = ["copy_cells", list(src), name, list(t.path), name]
+                    ops.append(op)
+                    apply_ref(G, op)
+            continue
         if k == 0:
             ops.append(["clear", q[1], q[2]])
         elif k == 1 and q[5] == "()" and not q[4]:
@@ -106,6 +120,12 @@ def run_case(case):
                 apply_ref(rm, op)
             else:
                 out.count("rejected_build_ops")
+            if k == "copy_cells":
+                # which values a new cells in a space drops is C02's business: resynchronise - except for the copy
+                # itself, which starts with the assigned values of its source and nothing computed
+                held = {(s, n, key) for (s, n), d in real.held().items() for key in d
+                        if (s, n) != (tuple(op[3]), op[4])}
+                out.label("copy_in_history")
             continue
         sid = tup(op[1])
         try:
